@@ -35,6 +35,16 @@ type Eff struct {
 	Fn     *Func     // function that contains the primitive site
 	Event  *Event    // the direct event in the summarised function (call or primitive)
 	Via    *Eff      // the callee effect this one was instantiated from (nil if direct)
+	Sites  []token.Pos // call-site positions from the summarised function down to the primitive
+}
+
+// SiteKey identifies the primitive site together with the call sites leading to it.
+func (e *Eff) SiteKey() string {
+	var sb strings.Builder
+	for _, s := range e.Sites {
+		fmt.Fprintf(&sb, "%d>", s)
+	}
+	return sb.String()
 }
 
 func (e *Eff) String() string {
@@ -160,12 +170,12 @@ func (p *Prog) SummaryOf(f *Func) *Summary {
 	type acc struct {
 		eff    *Eff
 		guards FactSet
-		onOK   int
-		seen   int
 		commit bool
 	}
 	accs := map[string]*acc{}
 	var order []string
+	siteOK := map[string]int{}     // site -> number of committed paths containing it
+	siteMustIn := map[string]bool{} // site -> callee-level must flag
 	nOK := 0
 	for _, pa := range paths {
 		if pa.OK() {
@@ -188,13 +198,14 @@ func (p *Prog) SummaryOf(f *Func) *Summary {
 		// Effects on reverting paths are kept with Commit=false: a transaction
 		// discards them (cache store), but a caller that drops the error inside
 		// end-block processing does not.
-		seenThisPath := map[string]bool{}
+		seenSite := map[string]bool{}
 		for i, ev := range pa.Events {
 			if ev.Kind != EvCall {
 				continue
 			}
 			for _, e := range p.effectsOfEvent(f, ev) {
-				key := effKey(e)
+				site := e.SiteKey()
+				key := site + "|" + e.String()
 				a := accs[key]
 				facts := pa.FactsBefore(i)
 				for k, v := range e.Guards {
@@ -210,11 +221,13 @@ func (p *Prog) SummaryOf(f *Func) *Summary {
 				if pa.OK() && e.Commit {
 					a.commit = true
 				}
-				if !seenThisPath[key] {
-					seenThisPath[key] = true
-					a.seen++
-					if pa.OK() && e.Must {
-						a.onOK++
+				if e.Must {
+					siteMustIn[site] = true
+				}
+				if !seenSite[site] {
+					seenSite[site] = true
+					if pa.OK() {
+						siteOK[site]++
 					}
 				}
 			}
@@ -225,7 +238,8 @@ func (p *Prog) SummaryOf(f *Func) *Summary {
 		a := accs[k]
 		e := a.eff
 		e.Guards = a.guards
-		e.Must = nOK > 0 && a.onOK == nOK
+		site := e.SiteKey()
+		e.Must = nOK > 0 && siteOK[site] == nOK && siteMustIn[site]
 		e.Commit = a.commit
 		s.Effs = append(s.Effs, e)
 	}
@@ -235,12 +249,6 @@ func (p *Prog) SummaryOf(f *Func) *Summary {
 	return s
 }
 
-func effKey(e *Eff) string {
-	return fmt.Sprintf("%d|%s|%s", e.Event.Pos, strings.Join(e.Chain, ">"), posKey(e.Pos))
-}
-
-func posKey(p token.Pos) string { return fmt.Sprintf("%d", p) }
-
 // effectsOfEvent returns the primitive effects caused by one call event:
 // the primitive itself, or the instantiated effects of a module callee.
 func (p *Prog) effectsOfEvent(f *Func, ev *Event) []*Eff {
@@ -248,6 +256,7 @@ func (p *Prog) effectsOfEvent(f *Func, ev *Event) []*Eff {
 	if e := p.classifyCall(f, ev); e != nil {
 		e.Must = true
 		e.Commit = true
+		e.Sites = []token.Pos{ev.Pos}
 		e.InLoop = ev.Loop != nil
 		e.Guards = FactSet{}
 		return []*Eff{e}
@@ -282,6 +291,7 @@ func (p *Prog) effectsOfEvent(f *Func, ev *Event) []*Eff {
 				for _, ce2 := range cs.Effs {
 					n2 := instantiate(ce2, cm, cl.Name, ev)
 					n2.Chain = append(append([]string{}, ne.Chain...), n2.Chain...)
+					n2.Sites = append(append([]token.Pos{}, ne.Sites...), n2.Sites[1:]...)
 					n2.Must = n2.Must && ne.Must
 					n2.Commit = n2.Commit && ne.Commit
 					n2.InLoop = n2.InLoop || ne.InLoop
@@ -302,6 +312,7 @@ func instantiate(ce *Eff, m map[string]*Term, callee string, ev *Event) *Eff {
 	ne := &Eff{Kind: ce.Kind, Op: ce.Op, Family: ce.Family, Builder: ce.Builder, Must: ce.Must, Commit: ce.Commit,
 		InLoop: ce.InLoop, Pos: ce.Pos, Fn: ce.Fn, Event: ev, Via: ce}
 	ne.Chain = append([]string{callee}, ce.Chain...)
+	ne.Sites = append([]token.Pos{ev.Pos}, ce.Sites...)
 	for _, a := range ce.Args {
 		ne.Args = append(ne.Args, a.Subst(m))
 	}
@@ -312,7 +323,12 @@ func instantiate(ce *Eff, m map[string]*Term, callee string, ev *Event) *Eff {
 	ne.Amount = ce.Amount.Subst(m)
 	ne.Guards = FactSet{}
 	for _, g := range ce.Guards {
-		ne.Guards.Add(g.Subst(m))
+		for _, ng := range g.SubstAll(m) {
+			if ng.T.IsAt("#true") || ng.T.IsAt("#false") {
+				continue
+			}
+			ne.Guards.Add(ng)
+		}
 	}
 	return ne
 }
